@@ -45,6 +45,41 @@ CHECKS["C06"] = dict(
     technique="Lean 4 proof (refinement: buffered loop = per-octet fold, by functional induction) + differential correspondence",
     design="5/C06")
 
+CHECKS["C02"] = dict(
+    text="Theorem clean_stream_delivered (Props/C02.lean): for every configuration, flag-free noise, every list of well-formed frame "
+         "descriptors (any format type, segmentation bit, 1..n-octet addresses, control, payload octets incl. flags/escapes, total <= 2047) "
+         "inside the stated domain (stuffing, or no flag in header+HCS and - with abort detection - no escape directly before a flag or the "
+         "end), fill >= 1 flags, and EVERY splitting into read() calls, the model reader returns exactly one frame object per descriptor, in "
+         "order; expected_observation shows that object is valid with the exact payload, addresses, control, length, format type and "
+         "segmentation. Proved via one_frame + induction over the frame list + the C06 refinement. Correspondence: descriptors -> Lean spec "
+         "encoder (the very `wire` term of the theorem) -> real HdlcFrameReader; boundary lengths incl. 2047; random cuts.",
+    note=NOTE_COMMON + "Frames are generated inside the decidable domain predicate; out-of-domain controls are compared impl-vs-model only.",
+    technique="Lean 4 proof (one-frame lemma, induction over frames, refinement to chunked reads) + spec-encoder-driven differential correspondence",
+    design="5/C02")
+CHECKS["C04"] = dict(
+    text="Theorems (Props/C04.lean): the CRC loop is CRC-16/ARC for every byte string; valid_sound: a readout built by the constructor and "
+         "reported valid has a parsing identification line and, whenever the text after '!' is four hex digits (+ optional CR LF), that value "
+         "equals the CRC of the bytes from '/' through '!' (0000 included); mismatch_invalid; isValid_total (never raises); valid_complete: "
+         "every well-formed readout descriptor (IEC 62056-21 identification, printable data lines, checksum in either case or none) encodes to "
+         "a readout that is valid with payload = exactly the bytes between identification line and '!' and the transmitted identification "
+         "groups; payload_exact; ident_wellformed (what a pattern match means). Correspondence: real DataReadout vs model on valid readouts, "
+         "all kinds of checksum-field replacement (0000 on zero- and non-zero-CRC readouts, case variants, +-1, non-hex text incl. 0x/_/sign "
+         "forms of int()), bit flips, noise, and spec-encoded readouts; thorough adds all 65536 checksum values.",
+    note=NOTE_COMMON + "Modelled, not verified: bytes.decode/strip/find, int(text,16) grammar, the identification regular expression "
+         "(deterministic equivalent pinned to the pattern text).",
+    technique="Lean 4 proof over models of DataReadout/Ident/CRC16 and CPython string built-ins + differential correspondence",
+    design="5/C04")
+CHECKS["C20"] = dict(
+    text="Theorems (Props/C20.lean): parse_reduced (all 16 presence patterns, every group value 0..255), parse_standard, no_ddd_raises (no "
+         "digit-dot-digit anywhere => ValueError, via inversion lemmas of the matcher), parse raises only ValueError, eq_iff, hash_congr, "
+         "eq_string_parses_first, cde_exact, roundtrip and roundtrip_str (format then parse gives the same groups when optional groups are "
+         "absent or non-zero). The matcher is the deterministic equivalent of re.match with the combined pattern; pattern texts are pinned "
+         "against the regenerated source strings. Correspondence: real to_obis_tupple / Obis methods vs model on both syntaxes, presence "
+         "patterns x boundary values, a mutation grammar of malformed strings, formatting, equality and hashing.",
+    note=NOTE_COMMON + "Modelled: the regular-expression engine on ASCII input (deterministic equivalent, tied by the correspondence), int(), f-strings of ints.",
+    technique="Lean 4 proof (matcher lemmas + inversion) + pinned pattern text + differential correspondence",
+    design="5/C20")
+
 NOT_YET = {}
 
 
